@@ -4,7 +4,7 @@
 // builds the harness with -race through a go build overlay, and explores, for every
 // scenario, all schedules up to the pre-emption bound by stateless depth-first search.
 // The search tree is kept here; executions are farmed out to a pool of harness worker
-// processes (GOMAXPROCS=2 each, see gomax). In a worker the cooperative scheduler is invisible to
+// processes (GOMAXPROCS=2 each, see gomax; a fresh process per execution, see workerExecs). In a worker the cooperative scheduler is invisible to
 // the race detector, so every explored schedule is also checked for data races by
 // happens-before analysis (see vsched).
 package main
@@ -152,7 +152,7 @@ func startWorker() (*worker, error) {
 		return nil, err
 	}
 	cmd := exec.Command(harness, "-seed", fmt.Sprint(seedv))
-	cmd.Env = append(os.Environ(), "GOMAXPROCS="+gomax(), "C17_RACELOG="+logDir, "GORACE=log_path="+filepath.Join(logDir, "race")+" halt_on_error=0")
+	cmd.Env = append(os.Environ(), "GOMAXPROCS="+gomax(), "C17_RACELOG="+logDir, "GORACE=log_path="+filepath.Join(logDir, "race")+" halt_on_error=0 atexit_sleep_ms=0")
 	in, err := cmd.StdinPipe()
 	if err != nil {
 		return nil, err
@@ -177,6 +177,7 @@ func (w *worker) stop() {
 	case <-time.After(5 * time.Second):
 		w.cmd.Process.Kill()
 	}
+	os.RemoveAll(w.dir)
 }
 
 // call executes one request; a worker that does not answer within the watchdog is
@@ -252,6 +253,7 @@ func popcount(m uint16) int {
 }
 
 type scenStat struct {
+	divNoted    bool
 	executions  int
 	transitions int64
 	maxPoints   int
@@ -282,6 +284,15 @@ func runPass(r *mc.Run, pass string, coarse bool, bound int, budget time.Duratio
 		r.Note("cannot list scenarios: %v", err)
 	}
 	scens := strings.Fields(string(out))
+	if only := os.Getenv("C17_ONLY"); only != "" { // experiments: scenarios whose name contains the text
+		var keep []string
+		for _, s := range scens {
+			if strings.Contains(s, only) {
+				keep = append(keep, s)
+			}
+		}
+		scens = keep
+	}
 	if s := os.Getenv("C17_BUDGET_S"); s != "" {
 		var n int
 		fmt.Sscan(s, &n)
@@ -328,10 +339,14 @@ func runPass(r *mc.Run, pass string, coarse bool, bound int, budget time.Duratio
 			other, ok := rootTrace[fmt.Sprintf("%s#%d", j.scen, 3-j.probe)]
 			rootTrace[fmt.Sprintf("%s#%d", j.scen, j.probe)] = rp.Points
 			if ok && !sameTrace(other, rp.Points) {
-				abandoned[j.scen] = true
+				// The code under test took different paths in two runs of one schedule (a pool that
+				// hands out a recycled or a new object, depending on the P the goroutine runs on).
+				// The schedule tree is then not a function of the choices: the exploration goes on,
+				// because every execution is still judged on its own and every report still has to
+				// reproduce twice in fresh processes, but nothing is claimed about coverage.
 				st.complete = false
-				r.Note("scenario %s: the default schedule is not deterministic (two runs gave different site traces); exploration of this scenario abandoned", j.scen)
-				r.NotExhaustive("scenario %s abandoned: nondeterministic trace", j.scen)
+				r.Note("scenario %s: the default schedule is not deterministic (two runs gave different site traces); explored without a coverage claim", j.scen)
+				r.NotExhaustive("scenario %s: nondeterministic trace, coverage not claimed", j.scen)
 			}
 			if j.probe == 2 {
 				return
@@ -348,8 +363,11 @@ func runPass(r *mc.Run, pass string, coarse bool, bound int, budget time.Duratio
 			return
 		}
 		if rp.Diverged {
-			r.Note("scenario %s: replay divergence at prefix length %d; sub-tree abandoned", j.scen, len(j.prefix))
-			r.NotExhaustive("scenario %s: replay divergence", j.scen)
+			if !st.divNoted {
+				st.divNoted = true
+				r.Note("scenario %s: replay divergence at prefix length %d; sub-tree abandoned (further divergences of this scenario are not listed)", j.scen, len(j.prefix))
+				r.NotExhaustive("scenario %s: replay divergence", j.scen)
+			}
 			st.complete = false
 			return
 		}
@@ -419,6 +437,7 @@ func runPass(r *mc.Run, pass string, coarse bool, bound int, budget time.Duratio
 		go func() {
 			defer wg.Done()
 			var w *worker
+			served := 0
 			defer func() {
 				if w != nil {
 					w.stop()
@@ -451,6 +470,11 @@ func runPass(r *mc.Run, pass string, coarse bool, bound int, budget time.Duratio
 				mu.Unlock()
 				var rp *reply
 				var err error
+				if w != nil && served >= workerExecs() {
+					w.stop()
+					w, served = nil, 0
+				}
+				served++
 				for attempt := 0; attempt < 2 && rp == nil; attempt++ {
 					if w == nil {
 						if w, err = startWorker(); err != nil {
@@ -555,6 +579,7 @@ func runPass(r *mc.Run, pass string, coarse bool, bound int, budget time.Duratio
 	}
 	per["build_s"] = float64(int(buildS*10)) / 10
 	per["worker_processes"] = nw
+	per["executions_per_worker_process"] = workerExecs()
 	per["free_run_only_reports"] = freeOnly
 	return per
 }
@@ -614,7 +639,7 @@ func main() {
 	r.Set("instrumented", instr)
 	r.SetRule("per pass and scenario (2-3 threads, one call each on one freshly constructed shared issuer / key): every schedule with at most the pass's number of pre-emptions at the inserted scheduling points, explored depth first from a central search tree; states = executions (stateless search: one state sequence per schedule), transitions = scheduling points executed; every execution is checked for race reports, result validity, deadlock and panics; distinct_nontrivial counts executions (each is a distinct schedule). Quick: one pass (coarse granularity, bound 1); thorough: fine granularity with bound 1, then coarse granularity with bound 2")
 	r.Assume("calls into dependencies (circl, go-hpke, standard library) are atomic steps of a schedule; races inside them are still detected by happens-before analysis",
-		"the race detector keeps a bounded access history per memory word, so a given race is reported in some schedules and not in others; exploring all schedules within the bound is what makes the report reliable",
+		"the race detector keeps a bounded access history per memory word, so a given race is reported in some schedules and not in others; exploring all schedules within the bound, each in a process of its own, is what makes the report reliable",
 		"memory-model effects weaker than sequential consistency are covered only through the race detector",
 		"client request states are not shared between threads (the statement promises sharing of issuers and keys only); responses are finalized after the join")
 	r.Finish()
@@ -630,6 +655,26 @@ func sameTrace(a, b []point) bool {
 		}
 	}
 	return true
+}
+
+// workerExecs: how many executions one worker process serves before it is replaced by a fresh one
+// (default 1). What the race detector reports for a schedule was measured to depend on what the
+// process had executed before: after two or three executions of code that touches one and the same
+// process-lifetime memory word without ordering (a package-level buffer shared by two calls, seed
+// C08-Q) the very schedule that reports the race in a fresh process 64 times out of 64 reported it
+// in fewer than half of the runs, and executions of other scenarios in between did not matter. With
+// one execution per process the verdict on a schedule is a function of the schedule alone, and the
+// confirmation in a fresh worker runs under the conditions of the exploration. Cost: a process start
+// plus the sequential warm-up per execution (about 0.15 s; the detector's 1 s sleep at exit is off).
+func workerExecs() int {
+	n := 1
+	if s := os.Getenv("C17_WORKER_EXECS"); s != "" {
+		fmt.Sscan(s, &n)
+	}
+	if n < 1 {
+		n = 1
+	}
+	return n
 }
 
 // gomax: the harness workers run with two Ps. Only one managed thread executes at any time (the
